@@ -83,7 +83,8 @@ var (
 // scratch returns a per-process temporary directory (outside /repo and /verif), removed at exit.
 func scratch() string {
 	scratchOnce.Do(func() {
-		d, err := os.MkdirTemp("", "verif-scratch-")
+		// inside the driver's work directory when there is one: it disappears with it even if this process is killed
+		d, err := os.MkdirTemp(os.Getenv("VERIF_OUT"), "verif-scratch-")
 		if err != nil {
 			panic(err)
 		}
